@@ -109,6 +109,9 @@ def binop(ex, st, op, a, b, node=None):
         # arithmetic / concatenation with an unknown value: an unknown value (a possible TypeError is not modelled)
         ex.used_stubs.add('operators applied to opaque values yield opaque values (no TypeError modelled)')
         return [(st, VOpaque(name='binop'))]
+    if getattr(a, 'shape', None) == 'packed' and isinstance(op, ast.Add):
+        from . import filemodel
+        return filemodel.packed_add(ex, st, a, b)
     if isinstance(a, VNone) or isinstance(b, VNone):
         if st.spec:
             raise Unsupported('arithmetic on None in spec')
@@ -208,7 +211,7 @@ def binop(ex, st, op, a, b, node=None):
         # Python: str * int repeats the string.  Needed only to expose such uses; modelled for constants.
         n, s_ = b.conc(), a.conc()
         if n is not None and s_ is not None:
-            return [(st, VStr(s_ * n))]
+            return [(st, VStr(s_ * n, isbytes=a.isbytes))]
         if n is not None and 0 <= n <= 4:
             r = z3.StringVal('')
             for _ in range(n):
@@ -580,6 +583,9 @@ def slice(ex, st, base, lo, hi, step):
     if isinstance(base, VBlob):
         from . import filemodel
         return filemodel.blob_slice(ex, st, base, lo, hi)
+    if getattr(base, 'shape', None) == 'packed':
+        from . import filemodel
+        return filemodel.packed_slice(ex, st, base, lo, hi)
     if not isinstance(base, VSeq):
         raise Unsupported('slice of %r' % (base,))
     n = base.length()
